@@ -81,6 +81,23 @@ fn main() {
                 }
             }
         }
+        "emptypulldown" => {
+            // debugging aid: PullDown on empty levels must be harmless (C06 compactor scripts may hit it)
+            use lsm_tree::AbstractTree;
+            let d = lsmv::runner::fresh_dir();
+            let t = lsm_tree::Config::new(&d, Default::default(), Default::default()).open().expect("open");
+            for (a, b) in [(4u8, 5u8), (0, 1), (5, 6)] {
+                let r = t.compact(std::sync::Arc::new(lsm_tree::compaction::PullDown(a, b)), 0);
+                println!("PullDown({a},{b}) on an empty tree -> {r:?}; tables {}", t.table_count());
+            }
+            t.insert("a", "v", 0);
+            t.flush_active_memtable(0).expect("flush");
+            let r = t.compact(std::sync::Arc::new(lsm_tree::compaction::PullDown(4, 5)), 0);
+            println!("PullDown(4,5) with data only in L0 -> {r:?}; tables {}", t.table_count());
+            let r = t.compact(std::sync::Arc::new(lsm_tree::compaction::PullDown(0, 1)), 0);
+            println!("PullDown(0,1) -> {r:?}; L1 tables {:?}", t.level_table_count(1));
+            0
+        }
         "c10worker" => {
             if args.len() < 3 {
                 usage();
